@@ -48,6 +48,7 @@ fn oracles(id: &str) -> Oracles {
 fn params(id: &str, tier: Tier) -> GenParams {
     let mut p = GenParams::default();
     p.max_ops = tier.pick(40, 120);
+    p.empty_permille = 30;
     match id {
         "C01" => {
             p.w = [48, 10, 18, 6, 8, 2];
@@ -64,6 +65,8 @@ fn params(id: &str, tier: Tier) -> GenParams {
             p.w = [45, 8, 22, 5, 10, 3];
         }
         "C08" => {
+            p.big_permille = 3;
+            p.empty_client_pct = 15;
             p.w = [65, 10, 15, 2, 5, 1];
             p.av_latest_pct = 45;
             p.foreign_pct = 20;
@@ -163,25 +166,44 @@ fn snap_choices(n: usize, base: u8) -> Vec<SnapAt> {
 
 fn small_scope(id: &str, max_n: usize) -> Vec<HCase> {
     let mut out = vec![];
+    // C08 also through the HTTP handlers, and with a body well beyond any buffer a handler might
+    // look at before the whole body has arrived
+    let entries: &[(Via, bool)] = if id == "C08" { &[(Via::Lib, false), (Via::Http, false), (Via::Http, true), (Via::Lib, true)] } else { &[(Via::Lib, false)] };
     for backend in [Backend::Mem, Backend::Sqlite] {
         for n in 0..=max_n {
             for base in [0u8, 1, 2] {
                 for snap in snap_choices(n, base) {
-                    for v in id_choices(n) {
-                        let mut ops = scenario_prefix(n, base, snap);
-                        match id {
-                            "C10" | "C11" | "C18" => {
-                                ops.push(Op::AddSnapshot { c: 0, version: v.clone(), data: d(700) });
-                                // and once more: the same request again must now be declined or
-                                // keep replacing consistently (monotonicity over a sequence)
-                                ops.push(Op::AddSnapshot { c: 0, version: v, data: d(701) });
-                            }
-                            "C08" => {
-                                ops.push(Op::AddVersion { c: 0, parent: v, data: d(700) });
-                            }
-                            _ => unreachable!(),
+                    // n == 0: the client is unknown to the server, or registered with no versions
+                    // (what the server leaves between the two transactions of a first AddVersion)
+                    for registered in [false, true] {
+                        if registered && (n > 0 || base != 0) {
+                            continue;
                         }
-                        out.push(HCase { backend, via: Via::Lib, case: Case { cfg: Cfg::default(), salt: 1, nclients: 2, ops } });
+                        for v in id_choices(n) {
+                            for (via, big) in entries.iter().copied() {
+                                if big && n > 2 {
+                                    continue;
+                                }
+                                let mut ops = scenario_prefix(n, base, snap);
+                                if registered {
+                                    ops.push(Op::NewClient { c: 0 });
+                                }
+                                match id {
+                                    "C10" | "C11" | "C18" => {
+                                        ops.push(Op::AddSnapshot { c: 0, version: v.clone(), data: d(700) });
+                                        // and once more: the same request again must now be declined or
+                                        // keep replacing consistently (monotonicity over a sequence)
+                                        ops.push(Op::AddSnapshot { c: 0, version: v.clone(), data: d(701) });
+                                    }
+                                    "C08" => {
+                                        let data = if big { BytesSpec { len: 300_000 + 4099 * n as u32, class: 2, seed: 700 } } else { d(700) };
+                                        ops.push(Op::AddVersion { c: 0, parent: v.clone(), data });
+                                    }
+                                    _ => unreachable!(),
+                                }
+                                out.push(HCase { backend, via, case: Case { cfg: Cfg::default(), salt: 1, nclients: 2, ops } });
+                            }
+                        }
                     }
                 }
             }
@@ -194,10 +216,10 @@ fn small_scope(id: &str, max_n: usize) -> Vec<HCase> {
 
 fn rule(id: &str) -> &'static str {
     match id {
-        "C01" => "generated multi-client histories (all id classes, nil/non-nil base, snapshots, reopen) on memory+SQLite via library and HTTP; the chain of every client is walked through GetChildVersion against the log of acknowledged versions. Non-trivial: walked client has >=2 versions and the history holds a rejected AddVersion or an AddSnapshot; distinct by (per-op client, outcome class) shape, base kind, reopen count.",
+        "C01" => "(a) all scheduler-owned interleavings of small batches of overlapping AddVersion requests (a new client's first requests included; memory / one SQLite object / one SQLite object per request; handlers and library), the chain walked afterwards against the set of acknowledged versions; (b) generated multi-client histories (all id classes, nil/non-nil base, snapshots, reopen) on memory+SQLite via library and HTTP; the chain of every client is walked through GetChildVersion against the log of acknowledged versions. Non-trivial: walked client has >=2 versions and the history holds a rejected AddVersion or an AddSnapshot; distinct by (per-op client, outcome class) shape, base kind, reopen count.",
         "C02" => "every AddVersion of generated histories is compared with the compare-and-append rule, id freshness, stored parent/payload, counter +1 iff snapshot; rejections with full-state dump before/after. Non-trivial: a real rejection (parent class not latest on a non-empty chain) or an accept on a client holding a snapshot; distinct by (state class, parent class, chain length bucket).",
         "C07" => "after every op of a generated history every acknowledged version of every client is re-read through GetChildVersion(parent). Non-trivial: a re-read after a later op; distinct by (version position, chain length bucket, class of the later op, snapshot present).",
-        "C08" => "every AddVersion(p) of generated histories is preceded by GetChildVersion(p) on the same state and the pair is checked against the found / not-found<=>accept / gone<=>reject relation and the model; plus the complete small-scope table (chain 0..6 x base kind x snapshot position x p class). Non-trivial: probe on a non-empty chain with p not the latest; distinct by (state class, p class).",
+        "C08" => "every AddVersion(p) of generated histories is preceded by GetChildVersion(p) on the same state and the pair is checked against the found / not-found<=>accept / gone<=>reject relation and the model; plus the complete small-scope table (chain 0..6, and the registered-but-empty client, x base kind x snapshot position x p class x library/HTTP x small/300 KB body). Non-trivial: probe on a non-empty chain with p not the latest; distinct by (state class, p class).",
         "C10" => "complete small-scope enumeration (chain 0..9 x nil/non-nil base x every reachable snapshot position incl. base corner x every v class incl. each position, nil, base, fresh, foreign; both backends) plus AddSnapshot ops in long random histories; after each AddSnapshot storage must show a clean replacement exactly when the window rule holds, else be untouched (full dump). Non-trivial: v is 5th/6th most recent, or a snapshot exists and v differs from it, or v is foreign/base; distinct by (n, base kind, snapshot position, v class, v position).",
         "C11" => "(a) all scheduler-owned interleavings (gate before every storage call) of AddSnapshot overlapping GetSnapshot and AddVersion on memory / one SQLite object / one SQLite object per request, via HTTP handlers and library: every GetSnapshot answer is the id and bytes of one upload, never an error, and the snapshot left behind is a usable base; (b) histories dense in AddVersion/AddSnapshot; GetSnapshot after every op must equal the most recently accepted upload (id and bytes from the same upload); after accepted snapshots and at the end the chain is walked from the snapshot version to the latest. Non-trivial: a walk of >=1 step after >=2 accepted snapshots or after a declined AddSnapshot; distinct by (chain length, walk length, accepted count, base kind).",
         "C18" => "full state dump (raw SQL for SQLite, storage API over all known ids for memory) before and after every GetChildVersion, GetSnapshot, conflicting AddVersion and declined AddSnapshot of generated histories. Non-trivial: the op's client holds a snapshot or >=2 clients hold data; distinct by (op/outcome, state class, holders, chain length bucket).",
@@ -243,6 +265,14 @@ pub fn run(id: &str, tier: Tier, seed: u64) -> Report {
     if id == "C11" {
         // the "overlapping" half of the quantifier, under the controlled scheduler
         crate::props::conc::c11_overlap_subrun(&mut rep, tier);
+        if rep.failed() {
+            return rep;
+        }
+    }
+
+    if id == "C01" {
+        // "always": also when the accepted requests overlapped in time
+        crate::props::conc::c01_overlap_subrun(&mut rep, tier);
         if rep.failed() {
             return rep;
         }
@@ -297,6 +327,7 @@ pub fn replay(id: &str, kind: &str, case: &Value, st: &mut Stats) -> CheckResult
             check(id, &hc, st)
         }
         "overlap" if id == "C11" => crate::props::conc::c11_replay(case, st),
+        "overlap" if id == "C01" => crate::props::conc::c01_replay(case, st),
         _ => Err(Fail::Inconclusive(format!("unknown replay kind {kind}"))),
     }
 }
